@@ -67,8 +67,8 @@ const PAR_TOKENS: [&str; 43] = [
     "%skip", "%on", "%allow_unmatched", "%enter", "%push", "%pop", "%scanner", "%%", ":", ";", "|", "(", ")", "[", "]", "{", "}", "<", ">", ",", "^", "@", "::", "=", "?=", "?!",
     "S", "A", "\"s\"", "'r'", "/x/", "'LALR(1)'",
 ];
-const BODY_TOKENS: [&str; 24] = [
-    "S", "A", "B", "'a'", "\"b\"", "/c/", "|", "(", ")", "[", "]", "{", "}", "^", "@m", ": T", ": x::Y", "<X>", "<INITIAL, X>", "?= 'b'", "?! /c/", "''", "/(/", "\"\\\"",
+const BODY_TOKENS: [&str; 28] = [
+    "S", "A", "B", "'a'", "\"b\"", "/c/", "\"a\"", "/a/", "'b'", "/b/", "|", "(", ")", "[", "]", "{", "}", "^", "@m", ": T", ": x::Y", "<X>", "<INITIAL, X>", "?= 'b'", "?! /c/", "''", "/(/", "\"\\\"",
 ];
 const DECLS: [&str; 30] = [
     "%title \"t\"",
@@ -231,6 +231,15 @@ pub fn run(tier: Tier, replay: Option<&str>) -> i32 {
             check(&g.to_par(), &[1, 10], "enumerated EBNF", &acc);
         });
     }
+    // 4b. terminals with equal texts in different quoting styles, lookaheads, scanner states (the C18 space)
+    let annot = crate::props::artifacts::annot_grammars(tier);
+    acc.count("terminal_style_grammars", annot.len() as u64);
+    annot.par_iter().for_each(|t| {
+        if ctx.expired() {
+            return;
+        }
+        check(t, &[1, 3], "terminal styles", &acc);
+    });
     // 5. character level
     let chars = ["%", ":", ";", "'", "\"", "/", "\\", "S", " ", "é"];
     let n_ch = tier.pick(5, 6);
@@ -286,7 +295,7 @@ pub fn run(tier: Tier, replay: Option<&str>) -> i32 {
         &acc,
         Finish {
             level: "exploration",
-            rule: format!("(1) every sequence of <= {n_tok} tokens of the PAR vocabulary ({} representatives, one per terminal of parol.par), bare and after `%start S`; (2) every production body of <= {n_body} items from {} body tokens (symbols, brackets, ^ @m :T, scanner-state prefixes, lookaheads, empty and broken literals) in an LL and an LALR frame, K in {{1,2,10}}; (3) every list of <= {n_decl} declarations from a menu of {} (valid, duplicate, undefined names, too long comment ends, unknown grammar type, scanner blocks) x 5 bodies; (4) every canonical BNF grammar of {sp:?} well-formed or not and every EBNF body of size <= {}, LL and LALR; (5) every character string of length <= {n_ch} over {{% : ; ' \" / \\ S blank e-acute}}, bare and after a valid prefix; (6) m-fold nesting / m-long alternation, sequence, production chain for m in {ms:?} (nested optionals/repetitions at most 300) in worker subprocesses with an 8 MiB stack. Oracle: every stage returns Ok or Err; a panic (debug assertions on) or an abnormal process exit is a violation.", PAR_TOKENS.len(), BODY_TOKENS.len(), DECLS.len(), tier.pick(5, 6)),
+            rule: format!("(1) every sequence of <= {n_tok} tokens of the PAR vocabulary ({} representatives, one per terminal of parol.par), bare and after `%start S`; (2) every production body of <= {n_body} items from {} body tokens (symbols, brackets, ^ @m :T, scanner-state prefixes, lookaheads, empty and broken literals) in an LL and an LALR frame, K in {{1,2,10}}; (3) every list of <= {n_decl} declarations from a menu of {} (valid, duplicate, undefined names, too long comment ends, unknown grammar type, scanner blocks) x 5 bodies; (4) every canonical BNF grammar of {sp:?} well-formed or not and every EBNF body of size <= {}, LL and LALR; (4b) the grammars of the C18 space (terminals with equal texts in different quoting styles, lookaheads, scanner states); (5) every character string of length <= {n_ch} over {{% : ; ' \" / \\ S blank e-acute}}, bare and after a valid prefix; (6) m-fold nesting / m-long alternation, sequence, production chain for m in {ms:?} (nested optionals/repetitions at most 300) in worker subprocesses with an 8 MiB stack. Oracle: every stage returns Ok or Err; a panic (debug assertions on) or an abnormal process exit is a violation.", PAR_TOKENS.len(), BODY_TOKENS.len(), DECLS.len(), tier.pick(5, 6)),
             exhaustive_note: "all listed families unless capped=true".into(),
             assumptions: vec!["the pipeline is driven through the public API the Builder/CLI use (parse, check_and_transform, analysis, lexer and parser source generation)".into()],
             extra: json!({}),
